@@ -2,7 +2,7 @@
 
 from __future__ import annotations
 
-from ..nf import NF, Atom, Undecided, app, atoms_of, lift, nf_equal, single_atom, subst, sym
+from ..nf import as_linear, NF, Atom, Undecided, app, atoms_of, lift, nf_equal, single_atom, subst, sym
 from ..values import NONE, Cond, Num, ObjV, TupleV
 from .common import (
     COL_CUMSUM,
@@ -185,6 +185,7 @@ def scenario(ctx, cls, tab, mode, qlen=None):
         state["obj"] = obj
         call_method(ex, obj, "fit", X)
         state["fit_events"] = len(ex.events)
+        ex.emit("marker", None, name="fit-done")
         return call_method(ex, obj, "evaluate", cuts)
 
     paths = run(ctx, ex, thunk)
@@ -251,7 +252,7 @@ def check_kernel(ctx, cls, tab, mode, sinks):
         shp = v.shape
         ok = shp is not None and len(shp) == 2 and nf_equal(lift(shp[0]), lift(exp_shape[0])) and nf_equal(lift(shp[1]), lift(exp_shape[1]))
         ctx.check(ok, "C01.c SHAPE-COLS", key, kloc, "one row per cut, " + ("one column" if multivariate else "one column per variable"), found=f"shape {shp}", expected=f"shape {exp_shape}")
-        bm = [e for e in p.events[state["fit_events"]:] if e.kind == "broadcast_mismatch"]
+        bm = [e for e in _after_fit(p) if e.kind == "broadcast_mismatch"]
         for e in bm:
             ctx.violation("C01.c SHAPE-COLS", key + "|broadcast", e.loc(), "operands broadcast a per-cut vector (k,) against a (k,p) matrix (missing reshape(-1, 1)?)", found=f"{e.data['left']} vs {e.data['right']}")
         if not bm:
@@ -259,7 +260,7 @@ def check_kernel(ctx, cls, tab, mode, sinks):
         # ------------------------------------------------ row independence
         _row_indep(ctx, ex, p, state, v, code_nf, key, loc)
         # ------------------------------------------------ sinks (prefix-sum subscripts)
-        for e in p.events[state["fit_events"]:]:
+        for e in _after_fit(p):
             if e.kind == "read":
                 b = e.data["base"]
                 a = single_atom(b.nf) if b.nf is not None else None
@@ -279,6 +280,14 @@ def check_kernel(ctx, cls, tab, mode, sinks):
     took = any(q.endswith("." + want) for q in fns)
     nott = not any(q.endswith("." + other) and cls.name in q for q in fns)
     ctx.check(took and nott, "C01.e PARAM-DISPATCH", key + "|mode", loc, f"param {'is' if mode == 'optim' else 'is not'} None selects {want}", found=sorted(q.split('.')[-1] for q in fns if "_evaluate_" in q))
+
+
+def _after_fit(p):
+    """events of a path after its own fit (the offset differs from path to path)"""
+    for i, e in enumerate(p.events):
+        if e.kind == "marker" and e.data.get("name") == "fit-done":
+            return p.events[i + 1:]
+    return []
 
 
 def _short(parts):
@@ -399,7 +408,7 @@ def _perm_simplify(nf):
 def _row_indep(ctx, ex, p, state, v, code_nf, key, loc):
     rule = "C01.d ROW-INDEP"
     obj = state["obj"]
-    evs = p.events[state["fit_events"]:]
+    evs = _after_fit(p)
     bad = [e for e in evs if e.kind == "attr_store" and isinstance(e.data["obj"], ObjV)]
     bad = [e for e in bad if _same_family(e.data["obj"], obj)]
     for e in bad:
@@ -423,19 +432,48 @@ def _row_indep(ctx, ex, p, state, v, code_nf, key, loc):
 
 
 def _same_family(a, b):
-    return a is b
+    # objects are re-created on every path re-execution: identity is the per-path allocation key
+    return a is b or getattr(a, "key", None) == getattr(b, "key", object())
+
+
+def _sign_test(c, v):
+    """What a decided fact says about the determinant sign: 'nonpd' (det_sign <= 0 established), 'pd' (det_sign > 0
+    established) or None.  Orientation-independent: `det_sign <= 0`, `not det_sign > 0`, `0 >= det_sign` all read alike."""
+    if c.t[0] != "cmp" or "detsign" not in c.key:
+        return None
+    lin = as_linear(c.t[2])
+    if lin is None:
+        return None
+    c0, co = lin
+    ks = [k for a, k in co.items() if "detsign" in repr(a)]
+    if len(ks) != 1 or len(co) != 1 or c0 != 0:
+        return None
+    k = ks[0]
+    op = c.t[1]
+    # the fact states:  k * det_sign  op  0   is  v
+    if op == "<=0":
+        le = True
+    elif op == "<0":
+        le = False
+    else:
+        return None
+    if k > 0:
+        # det_sign <= 0 (le) / det_sign < 0
+        if le:
+            return "nonpd" if v else "pd"
+        return "nonpd" if v else None  # not(det_sign < 0) leaves det_sign == 0 open
+    # k < 0:  det_sign >= 0 (le) / det_sign > 0
+    if le:
+        return None if v else "nonpd"  # det_sign >= 0 leaves 0 open
+    return "pd" if v else "nonpd"
 
 
 def _must_raise_nonpd(ctx, paths, key, loc):
     rule = "C01.a NONPD-RAISES"
     seen = 0
     for p in paths:
-        nonpd = None
-        for c, v in p.facts:
-            if c.t[0] == "cmp" and "detsign" in c.key:
-                # det_sign <= 0 taken
-                nonpd = v if c.t[1] in ("<=0", "<0") else (not v)
-        if nonpd:
+        kinds = [_sign_test(c, v) for c, v in p.facts]
+        if "nonpd" in kinds:
             seen += 1
             ok = p.outcome == "raise" and p.exc.exc_name == "RuntimeError"
             ctx.check(ok, rule, key, p.exc.func.loc(p.exc.node) if p.outcome == "raise" and p.exc.func else loc, "sample covariance not positive definite => documented RuntimeError", found=(p.exc.exc_name if p.outcome == "raise" else "returns a value"), expected="raise RuntimeError")
@@ -443,12 +481,7 @@ def _must_raise_nonpd(ctx, paths, key, loc):
         ctx.violation(rule, key, loc, "no branch tests the sign of the covariance determinant: a non-positive-definite slice is scored silently")
     # conversely, every returning path has taken the positive branch of the sign test (no shortcut around it)
     for k, p in enumerate(q for q in paths if q.outcome == "return"):
-        pos = False
-        for c, v in p.facts:
-            if c.t[0] == "cmp" and "detsign" in c.key:
-                nonpd = v if c.t[1] in ("<=0", "<0") else (not v)
-                if not nonpd:
-                    pos = True
+        pos = "pd" in [_sign_test(c, v) for c, v in p.facts]
         side = [repr(c)[:60] for c, v in p.facts if "detsign" not in c.key][-2:]
         ctx.check(pos, rule, key + f"|return#{k}", loc, "a value is returned only after the determinant sign test came out positive" if pos else "a returning path bypasses the determinant sign test: a degenerate (non-positive-definite) slice gets a finite or -inf cost instead of RuntimeError", found=f"path facts {side}", expected="det_sign > 0 decided on every returning path")
 
